@@ -47,7 +47,8 @@ def jobs(tier, seed):
     out.append({'fn': 'money_pairs', 'cfg': {}})
     out.append({'fn': 'user_units', 'cfg': {}})
     out.append({'fn': 'terms', 'cfg': {}})
-    out.append({'fn': 'rates', 'cfg': {}, 'opts': {'mag_range': (-6, 9)}})
+    for mi in range(3):
+        out.append({'fn': 'rates', 'cfg': {'modes': mi}, 'opts': {'mag_range': (-6, 9)}})
     out.append({'fn': 'qty_pairs', 'cfg': {'pairs': [['kg', 'kg']], 'fa': 'dec', 'fb': 'frac', 'canary': True},
                 'canary': True})
     LAST_CONFIG_INFO.clear()
@@ -159,7 +160,13 @@ def rates(E, cfg):
     E.assume(E.And(t >= Fraction(1, 100), t <= 10 ** 5, s >= Fraction(1, 100), s <= 10 ** 5))
     m1, m2 = E.choice('multiples', [(1, 1), (1, 10), (100, 1), (10, 1000), (1, 2), (5, 5)])
     cur = E.choice('cur', [(eur, usd, eur, usd), (eur, usd, eur, jpy), (eur, usd, usd, eur)])
+    # the two rates may be built under different default rounding modes (equal rates still hash equal)
+    modes = [(None, None), ('ROUND_HALF_EVEN', 'ROUND_DOWN'), ('ROUND_CEILING', 'ROUND_HALF_UP')][cfg.get('modes', 0)]
+    if modes[0]:
+        C.set_default_mode(modes[0])
     r1 = ExchangeRate(cur[0], m1, cur[1], t)
+    if modes[1]:
+        C.set_default_mode(modes[1])
     r2 = ExchangeRate(cur[2], m2, cur[3], s)
     _eq_implies_hash(E, r1, r2, 'equal-rates-hash-equal', 'rate-hash', [m1, m2])
     inv = r1.inverted().inverted() if False else r1
